@@ -11,7 +11,7 @@ spec         : specs/Resolver.tla, section "C16": UpgradeOk (the target is satis
                Deterministic: two resolutions of identical inputs (fresh objects) give the same
                answer and the same operations; thorough tier additionally repeats runs in
                subprocesses with different PYTHONHASHSEED.
-MC           : Resolver_MC (shared with C15): RobustNeverFails / RobustUpgrade / RobustReuse - in the
+MC           : Resolver_MC (shared with C15): RobustNeverFails / RobustPolicy - in the
                Robust domain no order of work of the reference resolver fails or misses the policy.
 spec -> code : exported bounded family;  code -> spec: seeded random worlds (robust style weighted).
 Judge        : Resolver_Trace (clauses Upgrade_failed, Upgrade_highest, Reuse_failed, Reuse_installed,
@@ -76,7 +76,8 @@ def run(ck):
     if ck.replay_case:
         return c15.replay(ck, want)
     c15.model_check(ck)
-    stats = c15.campaign(ck, want, plan_trace=False, sizes=ck.pick((100, 200, 100000), (6000, 6000, 3000)))
+    stats = c15.campaign(ck, want, plan_trace=False, sizes=ck.pick((80, 160, 100000), (3000, 4000, 4000)),
+                         styles=("robust", "friendly", "robust", "hostile"), seed=16)
     ck.extra["runs"] = stats
     ck.extra["policy_clauses_judged"] = stats["judged"]
     if not ck.quick:
